@@ -146,8 +146,16 @@ func runC15(r *Report, tier string) {
 				if p.ret != nil {
 					continue
 				}
-				if !condHas(p, "res<1>(typeassert<int64,ok>(res<1>(next(%R))))", true, bindings{}) && !condHas(p, "res<1>(typeassert<string,ok>(res<1>(next(%R))))", true, bindings{}) {
-					why = "a parameter can be kept whose label is neither int64 nor string"
+				// the label test may sit in a helper whose success the path requires
+				for _, cs := range P.expandConds(p.conds, 0) {
+					q := *p
+					q.conds = cs
+					if !q.feasible() {
+						continue
+					}
+					if !condHas(&q, "res<1>(typeassert<int64,ok>(res<1>(next(%R))))", true, bindings{}) && !condHas(&q, "res<1>(typeassert<string,ok>(res<1>(next(%R))))", true, bindings{}) {
+						why = "a parameter can be kept whose label is neither int64 nor string"
+					}
 				}
 			}
 			o.check(why == "", "int64 | string", why)
